@@ -190,6 +190,18 @@ theorem sliceOf_eq (vw : View) (call : Call) (xn yn : String) (carry : Bool) (n 
       (prod ((vw.bdims ([xn, yn] ++ if carry then carriedNames call else [])).map vw.ds.size)).map fun p =>
         vw.ds.cell n (vw.envOf (vw.bdims ([xn, yn] ++ if carry then carriedNames call else [])) p) := rfl
 
+/-- no array besides x and y enters the mask (from the extracted list of mask arrays) -/
+theorem extraMaskNames_nil (call : Call) (xn yn : String) (carry : Bool) : extraMaskNames call xn yn carry = [] := by
+  simp only [extraMaskNames, Gen.maskArrays, Gen.Default.maskArrays]
+  rfl
+
+/-- hence `not_null` is the source's combination of "x finite" and "y finite", whatever else is carried -/
+theorem notNull_mkSeries (vw : View) (call : Call) (xn yn : String) (carry : Bool) (bd : List String) (xs ys : List Cell) :
+    notNull vw bd xs ys (extraMaskNames call xn yn carry) =
+      zipWith (fun a b => Gen.maskIsBothFinite a.isFinite b.isFinite) xs ys := by
+  rw [extraMaskNames_nil]
+  rfl
+
 theorem carried_mkSeries (vw : View) (call : Call) (xn yn : String) (lab : Option String) :
     (mkSeries vw call xn yn true lab).ye = call.yErr.map (fun n => applyMask
       (zipWith (fun a b => Gen.maskIsBothFinite a.isFinite b.isFinite) (sliceXs vw call xn yn true) (sliceYs vw call xn yn true))
@@ -200,9 +212,11 @@ theorem carried_mkSeries (vw : View) (call : Call) (xn yn : String) (lab : Optio
     (call.kind = .scatter → (mkSeries vw call xn yn true lab).c = call.c.map (fun n => applyMask
       (zipWith (fun a b => Gen.maskIsBothFinite a.isFinite b.isFinite) (sliceXs vw call xn yn true) (sliceYs vw call xn yn true))
       (sliceOf vw call xn yn true n))) := by
-  refine ⟨rfl, rfl, ?_⟩
-  intro hk
-  simp [mkSeries, hk, sliceXs, sliceYs, sliceOf]
+  refine ⟨?_, ?_, ?_⟩
+  · simp only [mkSeries, notNull_mkSeries, sliceXs, sliceYs, sliceOf, if_true]
+  · simp only [mkSeries, notNull_mkSeries, sliceXs, sliceYs, sliceOf, if_true]
+  · intro hk
+    simp [mkSeries, notNull_mkSeries, hk, sliceXs, sliceYs, sliceOf]
 
 theorem xy_mkSeries (vw : View) (call : Call) (xn yn : String) (carry : Bool) (lab : Option String) :
     (mkSeries vw call xn yn carry lab).x = applyMask
@@ -210,7 +224,8 @@ theorem xy_mkSeries (vw : View) (call : Call) (xn yn : String) (carry : Bool) (l
       (sliceXs vw call xn yn carry) ∧
     (mkSeries vw call xn yn carry lab).y = applyMask
       (zipWith (fun a b => Gen.maskIsBothFinite a.isFinite b.isFinite) (sliceXs vw call xn yn carry) (sliceYs vw call xn yn carry))
-      (sliceYs vw call xn yn carry) := ⟨rfl, rfl⟩
+      (sliceYs vw call xn yn carry) := by
+  refine ⟨?_, ?_⟩ <;> simp only [mkSeries, notNull_mkSeries, sliceXs, sliceYs]
 
 /-- the cells of the slice a histogram series is taken from -/
 def histCells (vw : View) (call : Call) (zv : ZVal) : List Cell :=
